@@ -72,12 +72,12 @@ class FitFractions:
         )
         self.cached_int_total += int_mc
         self.cached_grad_total += g_int_mc
-        cahced_res = self.amp.used_res
         amp_tmp = self.amp
+        old_chains = _get_used_chains(amp_tmp)
         try:
             self._append_int_res(amp_tmp, mcdata, weight, args, kwargs)
         finally:
-            self.amp.set_used_res(cahced_res)
+            _set_used_chains(amp_tmp, old_chains)
 
     def _append_int_res(self, amp_tmp, mcdata, weight, args, kwargs):
         for i in range(len(self.res)):
@@ -356,16 +356,32 @@ def sum_gradient(
 sum_no_gradient = functools.partial(sum_gradient, grad=False)
 
 
+def _get_used_chains(amp):
+    """the decay chains that are active now (None: ``amp`` has no decay group)"""
+    decay_group = getattr(amp, "decay_group", None)
+    if decay_group is None:
+        return None
+    return list(decay_group.chains_idx)
+
+
+def _set_used_chains(amp, chains):
+    if chains is None:
+        amp.set_used_res(amp.used_res)
+    else:
+        amp.decay_group.set_used_chains(chains)
+
+
 def _restore_used_res(f):
-    """restore the selected resonances of ``amp`` also when ``f`` raises"""
+    """restore the active decay chains of ``amp`` (as they were before the
+    call, not all of them), also when ``f`` raises"""
 
     @functools.wraps(f)
     def g(amp, *args, **kwargs):
-        cached_res = amp.used_res
+        old_chains = _get_used_chains(amp)
         try:
             return f(amp, *args, **kwargs)
         finally:
-            amp.set_used_res(cached_res)
+            _set_used_chains(amp, old_chains)
 
     return g
 
